@@ -32,6 +32,22 @@ def main():
 
     rec = Recorder(spec["prop"])
     t0 = time.time()
+    # process-level configuration overlays (no property may depend on them)
+    if spec.get("umask") is not None:
+        os.umask(int(spec["umask"]))
+    if spec.get("enter_cwd") and spec.get("scratch"):
+        d = os.path.join(spec["scratch"], "cwd")
+        os.makedirs(d, exist_ok=True)
+        os.chdir(d)
+    if spec.get("stdin") == "closed":
+        try:
+            sys.stdin.close()  # Python-level stdin closed; descriptor 0 re-pointed at /dev/null for child processes
+            fd = os.open(os.devnull, os.O_RDONLY)
+            if fd != 0:
+                os.dup2(fd, 0)
+                os.close(fd)
+        except OSError:
+            pass
     real_stdout = sys.stdout
     sink = None
     try:
